@@ -13,6 +13,10 @@ class AnalysisError(Exception):
     """The analysis cannot decide (vanished anchor, unrecognised shape).  exit 2."""
 
 
+class EvalError(Exception):
+    """Strict evaluation (env['__strict__']): the evaluated code itself raises or does not terminate."""
+
+
 class Abstract:
     """Marker base class of rule-supplied abstract objects: the folder reads their attributes and calls their methods."""
 
@@ -511,7 +515,9 @@ class Program:
                 idx = f(node.slice)
             try:
                 return base[idx]
-            except (KeyError, IndexError, TypeError):
+            except (KeyError, IndexError, TypeError) as ex_:
+                if env is not None and env.get("__strict__"):
+                    raise EvalError(f"`{unparse(node)[:60]}` raises {type(ex_).__name__}")
                 raise CannotFold(f"subscript fails: {unparse(node)[:60]}")
         if isinstance(node, ast.BoolOp):
             res = f(node.values[0])                     # Python's own short-circuit: later operands may only be defined when reached
@@ -565,8 +571,8 @@ class Program:
     def _propagate(self, mod: Module, stmts: T.List[ast.stmt], env: T.Dict[str, T.Any], who: str, depth: int = 0) -> None:
         """Constant propagation through the statements of a table-building helper (see fold)."""
         import copy as _copy
-        if depth > 3:
-            raise CannotFold(f"helper not foldable: {who}")
+        if depth > 8:
+            raise CannotFold(f"helper not foldable: {who} (nesting)")
         for st in stmts:
             if isinstance(st, ast.AnnAssign) and st.value is None:
                 continue
@@ -585,12 +591,17 @@ class Program:
                 env[st.target.id] = env[st.target.id] + self.fold(mod, st.value, env)
             elif isinstance(st, ast.Expr) and isinstance(st.value, ast.Call) and isinstance(st.value.func, ast.Attribute) \
                     and isinstance(st.value.func.value, ast.Name) and st.value.func.value.id in env \
-                    and st.value.func.attr in ("update", "append", "extend", "add", "setdefault") and not st.value.keywords:
+                    and st.value.func.attr in ("update", "append", "extend", "add", "setdefault", "pop", "remove", "insert", "clear", "discard", "reverse") and not st.value.keywords:
                 recv = env[st.value.func.value.id]
                 args = [self.fold(mod, a, env) for a in st.value.args]
                 if not isinstance(recv, (dict, list, set)) or not hasattr(recv, st.value.func.attr):
                     raise CannotFold(f"helper not foldable: {who}")
-                getattr(recv, st.value.func.attr)(*args)
+                try:
+                    getattr(recv, st.value.func.attr)(*args)
+                except (IndexError, KeyError, ValueError) as ex_:
+                    if env.get("__strict__"):
+                        raise EvalError(f"`{unparse(st)[:60]}` raises {type(ex_).__name__}")
+                    raise CannotFold(f"helper not foldable: {who} (`{unparse(st)[:40]}` fails)")
             elif isinstance(st, ast.For) and not st.orelse:
                 it = self.fold(mod, st.iter, env)
                 if isinstance(it, dict):
@@ -622,6 +633,8 @@ class Program:
                     except _LoopContinue:
                         continue
                 else:
+                    if env.get("__strict__"):
+                        raise EvalError(f"`while {unparse(st.test)[:50]}` does not terminate (64 iterations)")
                     raise CannotFold(f"loop bound exceeded: {who}")
             elif isinstance(st, ast.Return) and "__return__" in env:
                 raise _FuncReturn(self.fold(mod, st.value, env) if st.value is not None else None)
